@@ -11,11 +11,19 @@ theorem here says "the encoder's output decodes to within the bound".  What is p
     against the specification in C03;
   * representability floors at specification level (`representable_floor*`) and the quantisation step bounds
     the oracle uses (`step_bounds`);
-  * the encoders' fully discrete single-colour paths decode exactly (BC7: every colour channel; BC4-type UNORM;
-    5:6:5 corner colours).
+  * the encoders' fully discrete single-colour paths decode exactly (BC7: the whole block for all 2³² colours;
+    BC4-type UNORM and BC3 alpha under any colour block; the SNORM `closest` branch for all 255 levels; BC2's 4-bit
+    alpha to the nearest multiple of 17; 5:6:5 corner colours);
+  * opacity of BC7, decoder side for EVERY block (modes 0–3 always opaque; any mode: a pixel is opaque when both
+    endpoints of the channel routed to alpha are 255; when a stored alpha endpoint is 255), and the discrete
+    control flow of the encoder that bears on it (modes tried, forced p-bits, the exactness guard of constant alpha).
 The clauses about the searched output are decided by exploration with this verified oracle (harness/src/c13.rs).
 -/
 import DdsModel.Proofs.Enc13
+import DdsModel.Proofs.Bc7Single
+import DdsModel.Proofs.Bc7Opaque
+import DdsModel.Proofs.Enc13Opaque
+import DdsModel.Proofs.Enc13Single
 namespace Dds.C13
 open Dds Dds.Bc Dds.Enc13
 
@@ -278,22 +286,211 @@ theorem bc7_single_alpha_exact : ∀ a, a ≤ 255 → ∀ k, k < 4 → Bc7.lerp 
     (by decide +kernel) a ha
   exact of_decide_eq_true (List.all_eq_true.mp h k (List.mem_range.mpr hk))
 
-/-- Whole blocks through the BC7 decoder model, on the grey diagonal and the three colour axes (1024 blocks):
-`decode (compress_single_color c) = 16 × c`.  (PARTIAL: the statement for all 2³² colours follows from the
-two channel lemmas above plus the bit-field layout of mode 5, which is checked here only on these lines and
-by the byte-for-byte tie with `dds::encode` on every generated single-colour case.) -/
-theorem bc7_single_block_exact_partial : ∀ v, v ≤ 255 →
-    Bc7.decodeBlock (bc7Single v v v 255) = List.replicate 16 [v, v, v, 255] ∧
-    Bc7.decodeBlock (bc7Single v 0 255 v) = List.replicate 16 [v, 0, 255, v] ∧
-    Bc7.decodeBlock (bc7Single 255 v 0 128) = List.replicate 16 [255, v, 0, 128] ∧
-    Bc7.decodeBlock (bc7Single 7 100 v 0) = List.replicate 16 [7, 100, v, 0] := by
-  intro v hv
-  have h := allUpTo (fun v => decide (
-    Bc7.decodeBlock (bc7Single v v v 255) = List.replicate 16 [v, v, v, 255] ∧
-    Bc7.decodeBlock (bc7Single v 0 255 v) = List.replicate 16 [v, 0, 255, v] ∧
-    Bc7.decodeBlock (bc7Single 255 v 0 128) = List.replicate 16 [255, v, 0, 128] ∧
-    Bc7.decodeBlock (bc7Single 7 100 v 0) = List.replicate 16 [7, 100, v, 0])) 255 (by decide +kernel) v hv
-  exact of_decide_eq_true h
+/-- The mode-5 bit-field layout of `compress_single_color` (`Compressed::mode5` + `BitStream::write_u64`): the block
+fits 128 bits, its first byte selects mode 5, rotation 0, and every field the decoder reads positionally
+(`Bc7Spec.rd block position width`) is the value the encoder wrote: the six 7-bit colour endpoints `optimize(c)`, the
+two 8-bit alpha endpoints `a`, and — through the anchor rule — colour index 1 and alpha index 1 at all 16 pixels. -/
+theorem bc7_single_mode5_layout (r g b a : Nat) (hr : r ≤ 255) (hg : g ≤ 255) (hb : b ≤ 255) (ha : a ≤ 255) :
+    bc7Single r g b a < 2 ^ 128 ∧ Bc7Spec.modeOf (bc7Single r g b a) = 5 ∧ Bc7Spec.rd (bc7Single r g b a) 6 2 = 0 ∧
+    Bc7Spec.rd (bc7Single r g b a) 8 7 = (optimize r).1 ∧ Bc7Spec.rd (bc7Single r g b a) 15 7 = (optimize r).2 ∧
+    Bc7Spec.rd (bc7Single r g b a) 22 7 = (optimize g).1 ∧ Bc7Spec.rd (bc7Single r g b a) 29 7 = (optimize g).2 ∧
+    Bc7Spec.rd (bc7Single r g b a) 36 7 = (optimize b).1 ∧ Bc7Spec.rd (bc7Single r g b a) 43 7 = (optimize b).2 ∧
+    Bc7Spec.rd (bc7Single r g b a) 50 8 = a ∧ Bc7Spec.rd (bc7Single r g b a) 58 8 = a ∧
+    ∀ i, i < 16 → Bc7Spec.index1 5 Bc7.r5 (bc7Single r g b a) 0 i = 1 ∧ Bc7Spec.index2 5 Bc7.r5 (bc7Single r g b a) i = 1 := by
+  obtain ⟨hr0, hr1⟩ := optimize_lt r hr
+  obtain ⟨hg0, hg1⟩ := optimize_lt g hg
+  obtain ⟨hb0, hb1⟩ := optimize_lt b hb
+  have ha' : a < 256 := by omega
+  rw [bc7Single_eq_sum r g b a hr hg hb ha]
+  obtain ⟨f0, f1, f2, f3, f4, f5, f6, f7, f8⟩ := sum_fields _ _ _ _ _ _ a hr0 hr1 hg0 hg1 hb0 hb1 ha'
+  refine ⟨?_, sum_mode _ _ _ _ _ _ _, f0, f1, f2, f3, f4, f5, f6, f7, f8, fun i hi =>
+    index_const _ 0 i hi (sum_index _ _ _ _ _ _ a hr0 hr1 hg0 hg1 hb0 hb1 ha')⟩
+  rw [sum_split]
+  have := sum_low_lt _ _ _ _ _ _ a hr0 hr1 hg0 hg1 hb0 hb1 ha'
+  have hI : IDX < 2 ^ 62 := by decide
+  omega
+
+/-- Whole blocks through the BC7 decoder model, for ALL 2³² colours:
+`decode_bc7_block (compress_single_color (r, g, b, a)) = 16 × (r, g, b, a)`.
+(From the layout above, `Bc7.decodeBlock = Bc7Spec.decodeBlock` of C03x, and the channel lemmas.) -/
+theorem bc7_single_block_exact (r g b a : Nat) (hr : r ≤ 255) (hg : g ≤ 255) (hb : b ≤ 255) (ha : a ≤ 255) :
+    Bc7.decodeBlock (bc7Single r g b a) = List.replicate 16 [r, g, b, a] :=
+  bc7Single_decodes r g b a hr hg hb ha
+
+/-- a colour off the grey diagonal and off the axes, computed -/
+example : Bc7.decodeBlock (bc7Single 201 17 128 93) = List.replicate 16 [201, 17, 128, 93] ∧
+    bc7Single 255 255 255 255 = 0x55555556aaaaaaafffffffffffffff20 := by decide +kernel
+
+/-- fully opaque single colours stay opaque (the alpha clause of the line above) -/
+theorem bc7_single_opaque (r g b : Nat) (hr : r ≤ 255) (hg : g ≤ 255) (hb : b ≤ 255) (i : Nat) (hi : i < 16) :
+    ((Bc7.decodeBlock (bc7Single r g b 255)).getD i []).getD 3 0 = 255 := by
+  rw [bc7_single_block_exact r g b 255 hr hg hb (by decide)]
+  simp only [List.getD_eq_getElem?_getD, List.getElem?_replicate, if_pos hi, Option.getD_some]
+  rfl
+
+/-! ### BC7 opacity, decoder side (every block) -/
+
+/-- For EVERY 128-bit block `b` (any `Nat`; only bits 0..127 are looked at):
+* modes 0–3 decode alpha 255 at every pixel;
+* any mode with record `r`: pixel `i` decodes alpha 255 whenever the two fully decoded endpoints (after p-bit and
+  bit replication) of its subset are 255 in the channel `alphaSrc rot` that the rotation field routes to alpha
+  (rotation 0: the alpha endpoints themselves; rotation 1/2/3 of modes 4, 5: the R/G/B endpoints);
+* modes without a rotation field (0–3, 6, 7) route alpha to alpha. -/
+theorem bc7_opaque_decode (b : Nat) :
+    (Bc7Spec.modeOf b ≤ 3 → ∀ i, i < 16 → ((Bc7.decodeBlock b).getD i []).getD 3 0 = 255) ∧
+    (∀ r, Bc7Spec.modes[Bc7Spec.modeOf b]? = some r → ∀ i, i < 16 →
+      Bc7Spec.endpoint (Bc7Spec.modeOf b) r b
+        (2 * BcTables.specSubset r.subsets (Bc7Spec.rd b (Bc7Spec.modeOf b + 1) r.partBits) i)
+        (Bc7Spec.alphaSrc (Bc7Spec.rotOf (Bc7Spec.modeOf b) r b)) = 255 →
+      Bc7Spec.endpoint (Bc7Spec.modeOf b) r b
+        (2 * BcTables.specSubset r.subsets (Bc7Spec.rd b (Bc7Spec.modeOf b + 1) r.partBits) i + 1)
+        (Bc7Spec.alphaSrc (Bc7Spec.rotOf (Bc7Spec.modeOf b) r b)) = 255 →
+      ((Bc7.decodeBlock b).getD i []).getD 3 0 = 255) ∧
+    (∀ r, Bc7Spec.modes[Bc7Spec.modeOf b]? = some r → r.rotBits = 0 →
+      Bc7Spec.alphaSrc (Bc7Spec.rotOf (Bc7Spec.modeOf b) r b) = 3) := by
+  have h2 : ∀ r, Bc7Spec.modes[Bc7Spec.modeOf b]? = some r → ∀ i, i < 16 →
+      Bc7Spec.endpoint (Bc7Spec.modeOf b) r b
+        (2 * BcTables.specSubset r.subsets (Bc7Spec.rd b (Bc7Spec.modeOf b + 1) r.partBits) i)
+        (Bc7Spec.alphaSrc (Bc7Spec.rotOf (Bc7Spec.modeOf b) r b)) = 255 →
+      Bc7Spec.endpoint (Bc7Spec.modeOf b) r b
+        (2 * BcTables.specSubset r.subsets (Bc7Spec.rd b (Bc7Spec.modeOf b + 1) r.partBits) i + 1)
+        (Bc7Spec.alphaSrc (Bc7Spec.rotOf (Bc7Spec.modeOf b) r b)) = 255 →
+      ((Bc7.decodeBlock b).getD i []).getD 3 0 = 255 := by
+    intro r hr i hi e0 e1
+    rw [Bc7.decodeBlock_eq, Bc7.spec_decodeBlock_mode b _ r rfl hr]
+    exact Bc7Spec.decodeMode_alpha _ r b i hi e0 e1
+  have h3 : ∀ r, Bc7Spec.modes[Bc7Spec.modeOf b]? = some r → r.rotBits = 0 →
+      Bc7Spec.alphaSrc (Bc7Spec.rotOf (Bc7Spec.modeOf b) r b) = 3 := by
+    intro r _ h0
+    rw [Bc7Spec.rotOf_zero _ r b h0]; rfl
+  refine ⟨fun hm i hi => ?_, h2, h3⟩
+  have hcase : Bc7Spec.modeOf b = 0 ∨ Bc7Spec.modeOf b = 1 ∨ Bc7Spec.modeOf b = 2 ∨ Bc7Spec.modeOf b = 3 := by omega
+  have key : ∀ r, Bc7Spec.modes[Bc7Spec.modeOf b]? = some r → r.alphaBits = 0 → r.rotBits = 0 →
+      ((Bc7.decodeBlock b).getD i []).getD 3 0 = 255 := by
+    intro r hr ha h0
+    have hs := h3 r hr h0
+    refine h2 r hr i hi ?_ ?_ <;> rw [hs] <;> exact Bc7Spec.noalpha_endpoint _ r b _ ha
+  rcases hcase with h | h | h | h
+  · exact key ⟨3, 4, 0, 0, 4, 0, 1, 0, 3, 0⟩ (by rw [h]; rfl) rfl rfl
+  · exact key ⟨2, 6, 0, 0, 6, 0, 0, 1, 3, 0⟩ (by rw [h]; rfl) rfl rfl
+  · exact key ⟨3, 6, 0, 0, 5, 0, 0, 0, 2, 0⟩ (by rw [h]; rfl) rfl rfl
+  · exact key ⟨2, 6, 0, 0, 7, 0, 1, 0, 2, 0⟩ (by rw [h]; rfl) rfl rfl
+
+/-- the hypotheses are satisfiable: a mode-1 block; a mode-6 block with alpha fields 127 and both p-bits 1 (pixel 0:
+subset 0, endpoints 0 and 1); a mode-5 block with rotation 1 whose R endpoints are 127 → 255 while its alpha
+endpoints are 0: the decoded ALPHA is 255 and the decoded red is 0 -/
+example : Bc7Spec.modeOf 0xfedcba98765432100123456789abcdee ≤ 3 ∧
+    Bc7Spec.modeOf (64 + 127 * 2 ^ 49 + 127 * 2 ^ 56 + 3 * 2 ^ 63) = 6 ∧
+    Bc7Spec.endpoint 6 Bc7.r6 (64 + 127 * 2 ^ 49 + 127 * 2 ^ 56 + 3 * 2 ^ 63) 0 3 = 255 ∧
+    Bc7Spec.endpoint 6 Bc7.r6 (64 + 127 * 2 ^ 49 + 127 * 2 ^ 56 + 3 * 2 ^ 63) 1 3 = 255 ∧
+    Bc7.decodeBlock (64 + 127 * 2 ^ 49 + 127 * 2 ^ 56 + 3 * 2 ^ 63) = List.replicate 16 [1, 1, 1, 255] ∧
+    Bc7Spec.rotOf 5 Bc7.r5 (32 + 1 * 2 ^ 6 + 127 * 2 ^ 8 + 127 * 2 ^ 15) = 1 ∧
+    Bc7.decodeBlock (32 + 1 * 2 ^ 6 + 127 * 2 ^ 8 + 127 * 2 ^ 15) = List.replicate 16 [0, 0, 0, 255] := by
+  decide +kernel
+
+/-- When is a stored alpha endpoint 255?  For every block `b` and endpoint number `e`, in terms of the raw fields:
+mode 4 — the 6-bit field is 63; mode 5 — the 8-bit field is 255; mode 6 — the 7-bit field is 127 AND the endpoint's
+p-bit is 1; mode 7 — the 5-bit field is 31 AND the endpoint's p-bit is 1.  (`Bc7.r4 … r7` are the records of the
+specification's mode table.) -/
+theorem bc7_alpha_endpoint_255_iff (b e : Nat) :
+    Bc7Spec.modes[4]? = some Bc7.r4 ∧ Bc7Spec.modes[5]? = some Bc7.r5 ∧ Bc7Spec.modes[6]? = some Bc7.r6 ∧
+    Bc7Spec.modes[7]? = some Bc7.r7 ∧
+    (Bc7Spec.endpoint 4 Bc7.r4 b e 3 = 255 ↔ Bc7Spec.rd b (Bc7Spec.alphaStart 4 Bc7.r4 + e * 6) 6 = 63) ∧
+    (Bc7Spec.endpoint 5 Bc7.r5 b e 3 = 255 ↔ Bc7Spec.rd b (Bc7Spec.alphaStart 5 Bc7.r5 + e * 8) 8 = 255) ∧
+    (Bc7Spec.endpoint 6 Bc7.r6 b e 3 = 255 ↔
+      Bc7Spec.rd b (Bc7Spec.alphaStart 6 Bc7.r6 + e * 7) 7 = 127 ∧ Bc7Spec.rd b (Bc7Spec.pStart 6 Bc7.r6 + e) 1 = 1) ∧
+    (Bc7Spec.endpoint 7 Bc7.r7 b e 3 = 255 ↔
+      Bc7Spec.rd b (Bc7Spec.alphaStart 7 Bc7.r7 + e * 5) 5 = 31 ∧ Bc7Spec.rd b (Bc7Spec.pStart 7 Bc7.r7 + e) 1 = 1) :=
+  ⟨rfl, rfl, rfl, rfl, Bc7Spec.alpha_endpoint_255_iff b e⟩
+
+/-! ### BC7 opacity, encoder side: the discrete control flow (float results are parameters) -/
+
+/-- `compress_bc7_block` (bc7.rs 95–136) with the presets of `BC7_UNORM` (bc.rs 480–491, `force_modes` empty): for a
+fully opaque block (`stats.min.a = 255`) the modes tried are exactly the allowed modes among 0–6 — never mode 7 — for
+every `allowed_modes` that contains one of them, in particular at all four quality levels (Fast {0,4,6}, Normal
+{1,3,4,5,6}, High/Unreasonable {0..6}); and a block mixing opaque and non-opaque pixels is never tried in mode 6. -/
+theorem bc7_opaque_modes :
+    (∀ allowed, allowed ≤ 255 → allowed &&& 127 ≠ 0 →
+      bc7ModesTried 255 255 allowed 0 = allowed &&& 127 ∧ bc7ModesTried 255 255 allowed 0 &&& MODE 7 = 0) ∧
+    (∀ q, bc7ModesTried 255 255 (bc7Allowed q) 0 = bc7Allowed q &&& 127 ∧ bc7Allowed q &&& 127 ≠ 0) ∧
+    (∀ minA, minA < 255 → ∀ q, bc7ModesTried minA 255 (bc7Allowed q) 0 &&& MODE 6 = 0) :=
+  ⟨opaque_modes.1, opaque_modes.2, mixed_no_mode6⟩
+example : bc7Allowed .fast ≤ 255 ∧ bc7Allowed .fast &&& 127 ≠ 0 ∧ bc7ModesTried 255 255 (bc7Allowed .normal) 0 = 0b1111010 := by
+  decide
+
+/-- `compress_rgba` (modes 6 and 7; bc7.rs 629–631 → `PBitHandling::pick_best` 761–785 → `pick_best_of_directly`
+786–808 → `Compressed::mode6/mode7` swap): for a fully opaque subset the p-bits written are (1, 1) — for every
+`max_p_bit_combinations`, every float estimate (`best1`, `best2`) and every error the float search reports (`err`),
+with or without the endpoint swap.  By `bc7_alpha_endpoint_255_iff` this is NECESSARY for an alpha endpoint of 255;
+that the 7-bit / 5-bit alpha fields are all ones is decided by `Quantization::pick_best` in f32 — not modelled. -/
+theorem bc7_opaque_pbits (maxComb : Nat) (best1 : List (Bool × Bool) → Bool × Bool)
+    (best2 : List (Bool × Bool) → List (Bool × Bool)) (err : Bool × Bool → Nat) (swap : Bool) :
+    pickBestStates (possiblePBits true) ALL_UNIQUE maxComb best1 best2 = [(true, true)] ∧
+    (pickBestOfDirectly (pickBestStates (possiblePBits true) ALL_UNIQUE maxComb best1 best2) err).map (pSwap · swap) =
+      some (true, true) ∧
+    (∀ (S : Type) (poss : List S) (e : S → Nat) (s : S), pickBestOfDirectly poss e = some s → s ∈ poss) :=
+  ⟨(opaque_pbits maxComb best1 best2 err swap).1, (opaque_pbits maxComb best1 best2 err swap).2,
+   fun _ poss e s h => pickBestOfDirectly_mem poss e s h⟩
+
+/-- ties keep the first state (strict `<`), a smaller error later wins -/
+example : pickBestOfDirectly [(false, true), (true, true)] (fun _ => 0) = some (false, true) ∧
+    pickBestOfDirectly ALL_UNIQUE (fun p => if p = (true, false) then 1 else 2) = some (true, false) := by decide
+
+/-- Constant alpha in modes 4 and 5 (`compress_color_separate_alpha_with_rotation`, bc7.rs 534–545): whatever
+`Alpha::<A>::round / floor / ceil` return (f32, parameters here), if the guard `round.promote().a == a` holds both
+stored endpoints promote to exactly `a`, and every interpolation weight returns `a`; for `a = 255` the guard allows
+exactly the all-ones endpoint (63 in mode 4, 255 in mode 5).  The other branch (floor / ceil) is float-dependent. -/
+theorem bc7_single_alpha_guard (A a round floor ceil : Nat) :
+    ((singleAlpha A a round floor ceil).2 = true → ∀ w, w ≤ 64 →
+      promoteAlpha A (singleAlpha A a round floor ceil).1.1 = a ∧ promoteAlpha A (singleAlpha A a round floor ceil).1.2 = a ∧
+      Bc7Spec.interp (promoteAlpha A (singleAlpha A a round floor ceil).1.1)
+        (promoteAlpha A (singleAlpha A a round floor ceil).1.2) w = a) ∧
+    (round < 64 → (promoteAlpha 6 round = 255 ↔ round = 63)) ∧
+    (round < 256 → (promoteAlpha 8 round = 255 ↔ round = 255)) :=
+  ⟨fun h w hw => singleAlpha_exact A a round floor ceil h w hw, singleAlpha_opaque_guard.1 round,
+   singleAlpha_opaque_guard.2 round⟩
+example : (singleAlpha 6 255 63 63 63).2 = true ∧ (singleAlpha 6 254 63 62 63).2 = false := by decide
+
+/-! ### single values on the remaining discrete paths: SNORM, BC3 alpha, BC2 alpha -/
+
+/-- BC4 / BC5 SNORM, the analogue of `bc4_single_exact`: the block `[from_norm(n), from_norm(0), 0, …]` that
+`single_color(value, snorm)` emits on its `closest` branch decodes at all 16 pixels — 8-bit and 16-bit output — to
+exactly the decoder's value of SNORM level `n`, for ALL 255 levels; side by side for BC5 (8 bit, third channel 128).
+Which inputs take the branch is decided in f32 (`|c0_f − value| < 2⁻¹⁶`, not modelled); an 8-bit UNORM input passes
+it only for 0 and 255 (blocks `81 81 00…` → 0 and `7f 81 00…` → 255), every other 8-bit value goes through the float
+palette search and is explored. -/
+theorem bc4s_closest_exact : ∀ n, n ≤ 254 →
+    Bc.decodeBlock .bc4s .u8 (blkOf (bc4sClosest n)) = List.replicate 16 [s8n8 (fromNorm n)] ∧
+    Bc.decodeBlock .bc4s .u16 (blkOf (bc4sClosest n)) = List.replicate 16 [s8n16 (fromNorm n)] ∧
+    s8norm (fromNorm n) = n ∧
+    (∀ m, m ≤ 254 → ∀ p, p < 16 →
+      Bc.px .bc5s .u8 (blkOf (bc4sClosest n ++ bc4sClosest m)) p = [s8n8 (fromNorm n), s8n8 (fromNorm m), 128]) :=
+  fun n hn => ⟨(bc4sClosest_decodes n hn).1, (bc4sClosest_decodes n hn).2, (fromNorm_norm n hn).1,
+    fun m hm p hp => bc5sClosest_px n m hn hm p hp⟩
+example : bc4sClosest 0 = [0x81, 0x81, 0, 0, 0, 0, 0, 0] ∧ bc4sClosest 254 = [0x7f, 0x81, 0, 0, 0, 0, 0, 0] ∧
+    s8n8 (fromNorm 0) = 0 ∧ s8n8 (fromNorm 254) = 255 ∧ s8n8 (fromNorm 127) = 128 := by decide
+
+/-- BC3 alpha (BC3, BC3 premultiplied): whatever the colour block is, a block whose alpha half is `single_color`'s
+`[a, 0, 0, …]` decodes alpha exactly `a` at all 16 pixels, all 256 values (in particular 255 stays 255). -/
+theorem bc3_alpha_single_exact (a : Nat) (ha : a ≤ 255) (blk : Nat → Nat)
+    (h : ∀ i, i < 8 → blk i = (bc4uSingle a).getD i 0) (p : Nat) (hp : p < 16) :
+    (px8 .bc3 blk p).getD 3 0 = a ∧ (px8 .bc3p blk p).getD 3 0 = a := bc3_alpha_single a ha blk h p hp
+example : ∀ i, i < 8 → blkOf (bc4uSingle 200 ++ [1, 2, 3, 4, 5, 6, 7, 8]) i = (bc4uSingle 200).getD i 0 := by decide
+
+/-- BC2 explicit alpha (BC2, BC2 premultiplied; `bc2_alpha` without alpha dithering): for a block of constant 8-bit
+alpha `a` the eight alpha bytes are all `17·q` with `q = round(a/17)` (`n4FromU8`), and under ANY colour block every
+pixel decodes alpha `17·q`: within 8 of `a` (inside the 4-bit step bound 17), exactly `a` when 17 divides `a` — so 255
+stays 255 and 0 stays 0. -/
+theorem bc2_alpha_single_step (a : Nat) (ha : a ≤ 255) :
+    bc2AlphaSingle a = List.replicate 8 (17 * n4FromU8 a) ∧ n4FromU8 a ≤ 15 ∧
+    dist (17 * n4FromU8 a) a ≤ 8 ∧ 8 < STEP4 ∧ (a % 17 = 0 → 17 * n4FromU8 a = a) ∧
+    ∀ blk : Nat → Nat, (∀ i, i < 8 → blk i = (bc2AlphaSingle a).getD i 0) → ∀ p, p < 16 →
+      (px8 .bc2 blk p).getD 3 0 = 17 * n4FromU8 a ∧ (px8 .bc2p blk p).getD 3 0 = 17 * n4FromU8 a :=
+  have h := bc2AlphaSingle_px a ha
+  ⟨h.1, h.2.2.1, h.2.2.2.1, by decide, h.2.2.2.2, fun blk hb p hp => bc2_alpha_single a ha blk hb p hp⟩
+example : ∀ i, i < 8 → blkOf (bc2AlphaSingle 200 ++ [1, 2, 3, 4, 5, 6, 7, 8]) i = (bc2AlphaSingle 200).getD i 0 := by decide
+example : bc2AlphaSingle 255 = List.replicate 8 255 ∧ bc2AlphaSingle 127 = List.replicate 8 119 ∧
+    bc2AlphaSingle 128 = List.replicate 8 136 ∧ (255 : Nat) % 17 = 0 := by decide
 
 /-! ### exactly representable 5:6:5 colours -/
 
